@@ -369,6 +369,78 @@ def g2_lift_close_pin(ctx: Ctx):
               'pinning a context that contradicts the inferred one is refused', 'conflict check changed')
 
 
+def s2_evaluation_order(ctx: Ctx):
+    """The callee body is spliced ahead of the *statement* holding the call, so it also moves ahead of whatever the
+    statement evaluates before the call ("inlined code keeps ... its argument evaluation order").  That is unobservable
+    only if nothing evaluated earlier reads a list or calls anything, or neither side stores into one.  Decided: (a) the
+    statement's own evaluation order is taken before the statement is visited and handed to the refusal test of every
+    call; (b) the order-taking visitor lists an expression after its operands and stays out of nested blocks; (c) the
+    test itself, evaluated from its source over orders of stand-in expressions."""
+    from ..minipy import Interp, Obj
+    blk = ctx.fn(INLINE, '_FuncInline._visit_block')
+    loops = [s for s in walk_no_nested(blk) if isinstance(s, ast.For)]
+    ok = False
+    if len(loops) == 1:
+        body = loops[0].body
+        i_visit = next((i for i, s in enumerate(body) if any(call_name(k) == 'self._visit_statement' for k in calls_in(s))), None)
+        takes = [i for i, s in enumerate(body) if isinstance(s, ast.Assign) and norm(s.targets[0]) == 'self._order']
+        mk = [i for i, s in enumerate(body) if isinstance(s, ast.Expr) and isinstance(s.value, ast.Call) and (call_name(s.value) or '').endswith('._visit_statement') and norm(s.value.args[0]) == norm(loops[0].target).split(', ')[-1].rstrip(')')]
+        ok = i_visit is not None and bool(takes) and takes[0] < i_visit and bool(mk) and mk[0] < takes[0]
+    ctx.check(ok, INLINE, blk, '_FuncInline._visit_block', 'the evaluation order of a statement is taken from the statement itself, before it is visited', 'the order handed to the refusal test is stale or missing')
+    vc = ctx.fn(INLINE, '_FuncInline._visit_call')
+    ks = [k for k in calls_in(vc) if call_name(k) == '_refuses']
+    kw = kwarg(ks[0], 'reorders') if len(ks) == 1 else None
+    ok = isinstance(kw, ast.Call) and call_name(kw) == '_reorders' and [norm(a) for a in kw.args] == ['e', 'self._order', 'self.def_use']
+    ctx.check(ok, INLINE, vc, '_FuncInline._visit_call', 'every call site asks the evaluation-order test with its own statement\'s order', f'got {norm(kw) if kw is not None else None}')
+    rf = ctx.fn(INLINE, '_refuses')
+    last = rf.body[-1]
+    ctx.check(isinstance(last, ast.Return) and norm(last.value) == 'reorders', INLINE, rf, '_refuses', 'a call that nothing else refuses is refused for the reordering', f'ends in `{norm(last)}`')
+    eo = ctx.repo.methods(INLINE, '_EvalOrder', inherited=False)
+    ve = eo.get('_visit_expr')
+    ok = ve is not None and [norm(s) for s in ve[2].body if not (isinstance(s, ast.Expr) and isinstance(s.value, ast.Constant))] == ['super()._visit_expr(e, ctx)', 'self.order.append(e)']
+    vb = eo.get('_visit_block')
+    ok = ok and vb is not None and all(isinstance(s, ast.Pass) or (isinstance(s, ast.Expr) and isinstance(s.value, ast.Constant)) for s in vb[2].body)
+    ctx.check(ok, INLINE, ve[2] if ve else None, '_EvalOrder', 'an expression is listed after its operands; nested blocks are not entered', 'the order taken is not the order of evaluation')
+    # (c) the test
+    fn = ctx.fn(INLINE, '_reorders')
+    node = ctx.repo.module(INLINE).toplevel().get('_READS_A_LIST')
+    kinds = {n.id for n in ast.walk(node.value) if isinstance(n, ast.Name)} if node is not None else set()
+    L = __import__('sa.lang', fromlist=['lang']).lang(ctx.repo)
+    need = {'ListRef', 'ListSlice', 'ListComp', 'Call', 'Sum'}
+    ctx.check(need <= kinds, INLINE, node, '_READS_A_LIST', f'element reads, slices, comprehensions, calls and list reductions count as reading a list ({sorted(need)})', f'missing {sorted(need - kinds)}')
+
+    def run(order, e, callee_pure, pure_calls=()):
+        own = [x for x in order if any(x is y for y in e.fields.get('inner', []))] + [e]
+        it = Interp({}, {}, is_a=lambda k, c: k == c or (c == '_READS_A_LIST' and k in kinds),
+                    overrides={'_EvalOrder': lambda: Obj('_EvalOrder', order=own, _visit_expr=lambda x, c: None), 'Purity.analyze': lambda f: callee_pure,
+                               'Purity.analyze_expr': lambda x, du: any(x is y for y in pure_calls), 'id': id, 'next': lambda seq, d=None: (list(seq) or [d])[0]})
+        return it.call_function(fn, [e, order, 'def_use'])
+
+    def mk(kind, **f):
+        o = Obj(kind, **f)
+        o.fields.setdefault('format', lambda: kind)
+        return o
+    var, ref, arg = mk('Var'), mk('ListRef'), mk('ListRef')
+    other = mk('Call', fn=Obj('Function', name='h', ast='h'))
+    call = mk('Call', fn=Obj('Function', name='g', ast='g'), inner=[arg])
+    rows = [
+        ('x + g(xs)', [var, arg, call], True, False, (), None),
+        ('xs[0] + g(xs), g stores', [ref, arg, call], False, False, (), 'refuse'),
+        ('xs[0] + g(xs), g pure', [ref, arg, call], True, True, (), None),
+        ('h(xs) + g(xs), h stores, g pure', [other, arg, call], True, True, (), 'refuse'),
+        ('h(xs) + g(xs), both pure', [other, arg, call], True, True, (other,), None),
+        ('g(xs[0]) alone: its own argument', [arg, call], False, False, (), None),
+        ('g(xs) + xs[0]: read after the call', [arg, call, ref], False, False, (), None),
+    ]
+    for label, order, _, pure, pure_calls, want in rows:
+        try:
+            got = run(order, call, pure, pure_calls)
+        except ShapeError as ex:
+            raise ShapeError(f'_reorders: {ex}')
+        ctx.check((got is None) == (want is None), INLINE, fn, '_reorders', f'{label}: {"refused" if want else "inlined"}',
+                  f'got {got!r}: `r = xs[0] + bump(xs)` inlines to a program that reads xs[0] after bump stored into it (22 instead of 12)')
+
+
 def _d1_partial_eval(ctx: Ctx):
     # what LiftContext hoists out of a loop is what PartialEval reports static there; the loop handling of that analysis is decided in c13
     from .c13 import d2_partial_eval
@@ -391,6 +463,7 @@ ASSUMPTIONS = ['PartialEval facts are sound (C13)', 'Reachability counts return 
 
 RULES = [
     Rule('C09.S1', 'FuncInline refuses calls in conditionally or repeatedly evaluated positions', hoist_mask_rule([INLINE_HOISTER], 'C09.S1'), 11, 'S,X'),
+    Rule('C09.S2', 'FuncInline refuses a call where splicing its body ahead of the statement would pass an earlier operand that reads a list or calls, unless neither side stores', s2_evaluation_order, 12, 'S,T'),
     Rule('C09.T1', 'callee context rule: declared / with-header (REAL) / ambient', t1_callee_context, 4, 'T'),
     Rule('C09.P1', 'arguments bound in order before the body; callee locals renamed; conflicts and multi-return refused', p1_binding_and_renaming, 9, 'P,F'),
     Rule('C09.P2', 'the fresh-name generator never hands out a name it holds (identifier hash / equality / retry loop)', fresh_names_rule, 9, 'P'),
@@ -405,6 +478,12 @@ RULES = [
 from ..selftest import Mutant  # noqa: E402
 
 MUTANTS = [
+    Mutant('inliner-ignores-the-evaluation-order', INLINE, "            reorders=_reorders(e, self._order, self.def_use),\n", "", 'C09.S2',
+           'finding F89 before its repair: r = xs[0] + bump(xs) inlines to 22 instead of 12'),
+    Mutant('order-test-trusts-an-impure-callee', INLINE, "    if Purity.analyze(e.fn.ast) and all(", "    if all(", 'C09.S2'),
+    Mutant('order-test-ignores-element-reads', INLINE, "_READS_A_LIST = (ListRef, ListSlice, ListComp, Call,", "_READS_A_LIST = (ListSlice, ListComp, Call,", 'C09.S2'),
+    Mutant('order-taken-after-the-visit', INLINE, "            order = _EvalOrder()\n            order._visit_statement(stmt, None)\n            self._order = order.order\n            stmt, _ = self._visit_statement(stmt, block_ctx)",
+           "            stmt, _ = self._visit_statement(stmt, block_ctx)\n            order = _EvalOrder()\n            order._visit_statement(stmt, None)\n            self._order = order.order", 'C09.S2'),
     Mutant('captured-values-compared-with-ne', INLINE, "                if not _same_captured(val, e.fn.env.get(str(name))):", "                if val != e.fn.env.get(str(name)):", 'C09.P4',
            'finding F75 before its repair: caller K = 0.0, callee K = -0.0'),
     Mutant('captured-floats-by-value-only', INLINE, "        return a == b and math.copysign(1.0, a) == math.copysign(1.0, b)", "        return a == b", 'C09.P4'),
@@ -462,8 +541,8 @@ MUTANTS = [
            "        t = self.gensym.fresh('t')", 'C09.P1'),
     Mutant('callee-locals-not-renamed', INLINE, "            if isinstance(d, AssignDef) and not d.is_free:\n                subst[d.name] = self.gensym.refresh(d.name)", "            if False:\n                subst[d.name] = self.gensym.refresh(d.name)", 'C09.P1'),
     Mutant('free-var-clash-ignored', INLINE, "                if not _same_captured(val, e.fn.env.get(str(name))):\n                    raise RuntimeError(f'cannot inline function `{e.fn.name}` due to conflicting free variable `{name}`')", "                pass", 'C09.P1'),
-    Mutant('index-before-refusal', INLINE, "        # a refusal is not a site, so it takes no index\n        reason = _refuses(e, in_while_cond=ctx.in_while_cond, in_conditional=ctx.in_conditional)",
-           "        self.site_idx += 0\n        idx0 = self.site_idx\n        reason = _refuses(e, in_while_cond=False, in_conditional=None)", 'C09.G1'),
+    Mutant('index-before-refusal', INLINE, "        # a refusal is not a site, so it takes no index\n        reason = _refuses(\n            e, in_while_cond=ctx.in_while_cond, in_conditional=ctx.in_conditional,\n",
+           "        self.site_idx += 0\n        idx0 = self.site_idx\n        reason = _refuses(\n            e, in_while_cond=False, in_conditional=None,\n", 'C09.G1'),
     Mutant('lift-reemits-constructor', LIFT, "self.name_to_expr[name] = ForeignVal(eval_info.by_expr[e], e.loc)", "self.name_to_expr[name] = e", 'C09.G2',
            'the defect repaired by the fix: commit'),
     Mutant('lift-any-expression', LIFT, "                isinstance(v, Context)\n                and not isinstance(e, Var)", "                not isinstance(e, Var)", 'C09.G2'),
